@@ -269,6 +269,29 @@ def _c20_run(prop, tier):
 CHECKS["C20"] = {"run": _c20_run, "replay": _case_replay}
 
 
+def _c08_run(prop, tier):
+    t0 = time.time()
+    fam = fam_codec.backend_family(tier)
+    for dv in fam.get("divergences", []):
+        print("DIVERGENCE (rig, not a property violation): %s %s" % (dv["mon"], json.dumps(dv["line"])[:200]))
+    return _codec_finish(prop, tier, fam, t0,
+        "case = one scenario on loopback TCP: a real proxy server (ServerProxyService::run -> handle_session, real backend connections through "
+        "DefaultConnFactory, real codecs) with batching strategy in {disabled, fixed, dynamic}, backend_conn_num in {1,2}, 1-2 scripted backends, "
+        "1-3 client connections each writing a pipeline of 1-16 requests (GET, SET, MGET, MSET, DEL, EXISTS, proxy-local PING / CLUSTER KEYSLOT) in "
+        "scripted fragments; backend connection generations follow fault scripts (close on accept, close before the n-th reply, close after b bytes of "
+        "the n-th reply, stall from the n-th request until the proxy times out, invalid bytes as n-th reply, listener down for a while, fragmented and "
+        "delayed replies); TLC checks every reply against the payloads the backend produced for that request's sub-requests; non-trivial iff a fault "
+        "script took effect",
+        ["real sockets and real time: the interleavings explored are those the OS produces under the scripted delays, not an enumeration",
+         "a scenario waits up to 40 s for each reply before declaring it missing (retries, 400 ms backend timeout and 1 s reconnect pauses are far below)",
+         "payload strings stand for reply identity (they embed command, key, value, backend, connection generation and ordinal)",
+         "Backend.tla is bound to the code by L1 monitors only; its internal steps (queues, retry state) are not observed"],
+        "sampled scenarios; the design model is exhaustive for 3-4 requests x 1-2 connections x 2-4 connection generations")
+
+
+CHECKS["C08"] = {"run": _c08_run, "replay": _case_replay}
+
+
 def _c05_run(prop, tier):
     t0 = time.time()
     fam = fam_codec.meta_family(tier)
